@@ -137,6 +137,12 @@ inline std::string_view url_pattern_compile_component_options::get_prefix()
   return {};
 }
 
+#ifdef ADA_URL_ADA_VERIF
+namespace verif {
+inline bool force_regexp_components = false;
+}  // namespace verif
+#endif
+
 template <url_pattern_regex::regex_concept regex_provider>
 template <url_pattern_encoding_callback F>
 tl::expected<url_pattern_component<regex_provider>, errors>
@@ -178,6 +184,14 @@ url_pattern_component<regex_provider>::compile(
     }
   }
 
+#ifdef ADA_URL_ADA_VERIF
+  // Verification hook (compiled only with -DADA_URL_ADA_VERIF): compile every
+  // component through the regular-expression path.
+  if (verif::force_regexp_components) {
+    component_type = url_pattern_component_type::REGEXP;
+    exact_match_value.clear();
+  }
+#endif
   // For simple patterns, skip regex generation and compilation entirely
   if (component_type != url_pattern_component_type::REGEXP) {
     auto pattern_string =
